@@ -432,8 +432,12 @@ class Interp:
                 x = self.eval(v.value, env)
                 if isinstance(x, (str, int)) and not isinstance(x, bool) and v.conversion == -1 and v.format_spec is None:
                     parts.append(str(x))
+                elif isinstance(x, SV) and x.ty == STR and v.conversion == -1 and v.format_spec is None:
+                    parts.append(x)
                 else:
                     return self.V.fstring(self, n, env)
+        if any(isinstance(p_, SV) for p_ in parts):
+            return SV(z3.simplify(z3.Concat(*[pack(self.ctx, p_, STR) for p_ in parts])) if len(parts) > 1 else parts[0].t, STR)
         return "".join(parts)
 
     def e_IfExp(self, n, env):
@@ -501,6 +505,8 @@ class Interp:
         if isinstance(a, Opaque) or isinstance(b, Opaque):
             return Opaque("binop")
         a, b = self.unwrap_opt(a, node), self.unwrap_opt(b, node)
+        if isinstance(op, ast.Div) and isinstance(a, Obj) and callable(a.fields.get("__truediv__")):
+            return a.fields["__truediv__"](self, b)
         if not is_sym(a) and not is_sym(b) and not isinstance(a, (Obj, Opaque, PyList, PyDict)) and not isinstance(b, (Obj, Opaque, PyList, PyDict)):
             return _PYOPS[type(op)](a, b)
         if isinstance(a, PyList) and isinstance(b, PyList) and isinstance(op, ast.Add):
